@@ -2,7 +2,7 @@
   Blocking pops, repaired tree — every event of an `AllowedFixed` history keeps `InvB`
   (the multi-key invariant, with an empty wake queue between commands), and what follows from it.
 -/
-import FerrousSpec.Proofs.BlockingFixSteps
+import FerrousSpec.Proofs.BlockingFixExec
 namespace Ferrous.Blk
 
 /-! ## The drain after a command -/
@@ -28,6 +28,7 @@ theorem cntL_zero_of_firstNonEmpty_none {op : Op} {st : List (Key × Elem)} {key
   cntL_zero_of_popElem_none (firstNonEmpty_none h k hk)
 
 theorem InvF_dataCore (q : Quirks) (hq : Repaired q) (now : Nat) (c cid : Conn) (s : State) (cmd : Cmd)
+    (hnx : ¬ (q.execAtomic = true ∧ cid = 0))
     (hB : InvB s) (ho : Open s c) (hcid : cid = c ∨ cid = 0) (hok : dataOkF q s cid cmd = true) :
     InvF (dataCore q now c cid s cmd) ∧
       (q.drainAll = true ∨ (dataCore q now c cid s cmd).wakeQ.length ≤ wakeBatch) := by
@@ -105,20 +106,23 @@ theorem InvF_dataCore (q : Quirks) (hq : Repaired q) (now : Nat) (c cid : Conn) 
   | exec => exact ⟨hI, hlen0 _ rfl⟩
 
 theorem InvB_dataCmd (q : Quirks) (hq : Repaired q) (now : Nat) (c cid : Conn) (s : State) (cmd : Cmd)
+    (hnx : ¬ (q.execAtomic = true ∧ cid = 0))
     (hB : InvB s) (ho : Open s c) (hcid : cid = c ∨ cid = 0) (hok : dataOkF q s cid cmd = true) :
     InvB (dataCmd q now c cid s cmd) := by
-  obtain ⟨h1, h2⟩ := InvF_dataCore q hq now c cid s cmd hB ho hcid hok
+  obtain ⟨h1, h2⟩ := InvF_dataCore q hq now c cid s cmd hnx hB ho hcid hok
+  unfold dataCmd
+  simp only [hnx, if_false]
   exact InvB_drain q hq _ h1 h2
 
 theorem InvB_foldl_dataCmd (q : Quirks) (hq : Repaired q) (now : Nat) (c cid : Conn) (hcid : cid = c ∨ cid = 0)
-    (cmds : List Cmd) :
+    (hnx : ¬ (q.execAtomic = true ∧ cid = 0)) (cmds : List Cmd) :
     ∀ s, InvB s → Open s c → dataSeqOkF q now c cid s cmds = true → InvB (cmds.foldl (dataCmd q now c cid) s) := by
   induction cmds with
   | nil => intro s h _ _; exact h
   | cons cmd r ih =>
     intro s h ho hok
     simp only [dataSeqOkF, Bool.and_eq_true] at hok
-    exact ih _ (InvB_dataCmd q hq now c cid s cmd h ho hcid hok.1) (Open_dataCmd ho) hok.2
+    exact ih _ (InvB_dataCmd q hq now c cid s cmd hnx h ho hcid hok.1) (Open_dataCmd ho) hok.2
 
 /-! ## Frames, batches, events -/
 
@@ -144,24 +148,40 @@ theorem InvB_topCmd (q : Quirks) (hq : Repaired q) (now : Nat) (c : Conn) (s : S
     split
     · next hin =>
       simp only [hin, if_true] at hok
-      exact InvB_foldl_dataCmd q hq now c 0 (.inr rfl) _ _ (InvB_tx hB ho _ _ (fun _ => ⟨rfl, rfl, rfl⟩))
-        (hqo _ _ (fun _ => ⟨rfl, rfl, rfl⟩)) hok
+      have hB1 : InvB (emit (setConn s c fun cs => { cs with inTx := false, queue := [] }) c (.arrHdr (s.conns c).queue.length)) :=
+        InvB_tx hB ho _ _ (fun _ => ⟨rfl, rfl, rfl⟩)
+      have hO1 := hqo (fun cs => { cs with inTx := false, queue := [] }) (.arrHdr (s.conns c).queue.length) (fun _ => ⟨rfl, rfl, rfl⟩)
+      by_cases hx : q.execAtomic = true
+      · -- atomic EXEC: no notification, no wake-up inside; the pushed keys are served afterwards
+        simp only [hx, if_true]
+        have h2 := InvX_foldl q hx hq.2.2.2.1 now c (s.conns c).queue _ hB1.toX hO1.2.2
+        have h3 := serveKeys_spec q hq.2.2.1 (pushKeys (s.conns c).queue) _ _ h2
+        apply h3.toB
+        intro k hR
+        by_cases hk : k ∈ pushKeys (s.conns c).queue
+        · exact h3.clean k (fun h => h.2 hk) hR
+        · refine h3.clean k (fun h => ?_) hR
+          rcases h.1 with h' | h'
+          · exact h'
+          · exact hk h'
+      · simp only [hx]
+        exact InvB_foldl_dataCmd q hq now c 0 (.inr rfl) (fun h => hx h.1) _ _ hB1 hO1 hok
     · exact hemit _
   | push op k vs =>
     simp only [topCmd]; simp only [topOkF] at hok
     split
     · exact InvB_tx hB ho _ _ (fun _ => ⟨rfl, rfl, rfl⟩)
-    · next hin => simp only [hin] at hok; exact InvB_dataCmd q hq now c c s _ hB ho (.inl rfl) hok
+    · next hin => simp only [hin] at hok; exact InvB_dataCmd q hq now c c s _ (fun h => ho.1 h.2) hB ho (.inl rfl) hok
   | pop op k =>
     simp only [topCmd]; simp only [topOkF] at hok
     split
     · exact InvB_tx hB ho _ _ (fun _ => ⟨rfl, rfl, rfl⟩)
-    · next hin => simp only [hin] at hok; exact InvB_dataCmd q hq now c c s _ hB ho (.inl rfl) hok
+    · next hin => simp only [hin] at hok; exact InvB_dataCmd q hq now c c s _ (fun h => ho.1 h.2) hB ho (.inl rfl) hok
   | bpop op keys t =>
     simp only [topCmd]; simp only [topOkF] at hok
     split
     · exact InvB_tx hB ho _ _ (fun _ => ⟨rfl, rfl, rfl⟩)
-    · next hin => simp only [hin] at hok; exact InvB_dataCmd q hq now c c s _ hB ho (.inl rfl) hok
+    · next hin => simp only [hin] at hok; exact InvB_dataCmd q hq now c c s _ (fun h => ho.1 h.2) hB ho (.inl rfl) hok
 
 theorem InvB_setConn_tx {s : State} (hB : InvB s) (c : Conn) (f : ConnSt → ConnSt)
     (hf : ∀ cs, (f cs).blocked = cs.blocked ∧ (f cs).gone = cs.gone ∧ (f cs).peerClosed = cs.peerClosed) :
